@@ -98,14 +98,44 @@ def corpus_for_c07(tier, seed):
             yield document(*c)
 
 
+def _stroke_without_simplify(svg_cmds, svg_linecap, svg_linejoin, stroke_width, stroke_miterlimit, tolerance, dash_array=(), dash_offset=0.0):
+    """svg_pathops.stroke minus its final Path.simplify() - used only to attribute a violation"""
+    from picosvg import svg_pathops as P
+
+    sk = P.skia_path(svg_cmds, fill_rule="nonzero")
+    sk.stroke(stroke_width, P._SVG_TO_SKIA_LINE_CAP[svg_linecap], P._SVG_TO_SKIA_LINE_JOIN[svg_linejoin], stroke_miterlimit, dash_array, dash_offset)
+    sk.convertConicsToQuads(tolerance)
+    return P.svg_commands(sk)
+
+
+def diagnose(doc, tier, seed):
+    """Is the violation produced by Skia's simplify() of the stroker output (a defect below picosvg)?
+    Convert again with that one call skipped: if the result satisfies the oracle, yes."""
+    from picosvg import svg_pathops as P
+
+    orig = P.stroke
+    P.stroke = _stroke_without_simplify
+    try:
+        o, why, kind, nt, st, out = RC.judge(doc, tier, seed, min_inside=15, min_outside=15, structural=False)
+    except Exception:
+        return "other"
+    finally:
+        P.stroke = orig
+    return "skia-simplify-after-stroke" if (o == "returned" and not why) else "other"
+
+
 def evaluate(case):
     k = case["k"]
     doc = document(*k)
-    return RC.record(
+    rec = RC.record(
         doc, case["tier"], case["seed"], min_inside=15, min_outside=15,
         sig_extra={"family": "stroke", "geom": k[0], "cap": k[2], "join": k[3], "dash": k[5], "where": k[8]},
         case_extra={"k": k},
     )
+    for v in rec["viol"]:
+        if v["sig"].get("kind") == "render":
+            v["sig"]["cause"] = diagnose(doc, case["tier"], case["seed"])
+    return rec
 
 
 def cases(tier, seed):
@@ -129,5 +159,6 @@ def run(run):
 
 
 def replay(case):
-    doc = case.get("doc") or document(*case["k"])
-    return RC.record(doc, "quick", 0, min_inside=15, min_outside=15)["viol"]
+    if "k" in case:
+        return evaluate({"k": case["k"], "tier": "quick", "seed": 0})["viol"]
+    return RC.record(case["doc"], "quick", 0, min_inside=15, min_outside=15)["viol"]
